@@ -47,8 +47,9 @@ import (
 func init() { core.Register("C39", "exploration", run) }
 
 const (
-	chA = 0 // source chain (packet senders live here)
+	chA = 0 // first source chain (packet senders live here)
 	chB = 1 // destination chain (GMP accounts live here)
+	chC = 2 // second source chain: same client id for its client of B as chain A, same sender strings
 )
 
 // ---- triples -----------------------------------------------------------------------------------
@@ -261,27 +262,45 @@ const (
 
 type fixture struct {
 	w       *ksim.World
-	link    *ksim.Link
-	senders [2]sdk.AccAddress // packet senders on A
-	triples [3]Triple         // (ClientB, sender0, s1), (ClientB, sender0, s2), (ClientB, sender1, s1)
-	addrs   [3]sdk.AccAddress // their accounts on B (derived before first use, funded)
-	vic, r1 sdk.AccAddress
-	all     []string
+	link    *ksim.Link        // A <-> B
+	link2   *ksim.Link        // C <-> B
+	senders [2]sdk.AccAddress // packet senders (the same strings are used on A and on C)
+	// triples 0..2 arrive over link (from A): (B's client of A, sender0, s1), (.., sender0, s2), (.., sender1, s1);
+	// triple 3 arrives over link2 (from C): (B's client of C, sender0, s1) — same sender and salt as triple 0
+	triples  [nGMP]Triple
+	addrs    [nGMP]sdk.AccAddress // their accounts on B (derived from the DESTINATION client before first use, funded)
+	src      [nGMP]int            // source chain of the triple
+	links    [nGMP]*ksim.Link
+	vic, r1  sdk.AccAddress
+	srcKeyed sdk.AccAddress
+	all      []string
 }
 
 func build(c *core.C) *fixture {
-	wk := ksim.NewWorker(c.T, 2)
+	wk := ksim.NewWorker(c.T, 3)
 	w := wk.Root()
 	icaworld.FixHeaders(w)
 	f := &fixture{w: w}
+	// client identifiers are asymmetric: B first creates an unused client, so that B's clients of A and of C are
+	// 07-tendermint-1 and 07-tendermint-2 while A and C BOTH call their client of B 07-tendermint-0
+	_, dr := w.CreateClient(chB, chA)
+	ksim.MustOK("dummy client on B", dr)
 	f.link = w.SetupClients(chA, chB)
+	f.link2 = w.SetupClients(chC, chB)
 	w.RegisterCounterparties(f.link)
+	w.RegisterCounterparties(f.link2)
+	if f.link.ClientA != f.link2.ClientA || f.link.ClientB == f.link2.ClientB || f.link.ClientA == f.link.ClientB || f.link2.ClientA == f.link2.ClientB {
+		panic(fmt.Sprintf("client identifiers not laid out as intended: A:%s<->B:%s, C:%s<->B:%s", f.link.ClientA, f.link.ClientB, f.link2.ClientA, f.link2.ClientB))
+	}
 	f.senders = [2]sdk.AccAddress{icaworld.Addr("gmp-sender-0"), icaworld.Addr("gmp-sender-1")}
-	f.triples = [3]Triple{
+	f.triples = [nGMP]Triple{
 		{f.link.ClientB, f.senders[0].String(), []byte("s1")},
 		{f.link.ClientB, f.senders[0].String(), []byte("s2")},
 		{f.link.ClientB, f.senders[1].String(), []byte("s1")},
+		{f.link2.ClientB, f.senders[0].String(), []byte("s1")},
 	}
+	f.src = [nGMP]int{chA, chA, chA, chC}
+	f.links = [nGMP]*ksim.Link{f.link, f.link, f.link, f.link2}
 	gk := wk.Chains[chB].App.GMPKeeper
 	for i, t := range f.triples {
 		s, err := gk.GetOrComputeICS27Address(w.CS[chB].Ctx, t.id())
@@ -294,9 +313,13 @@ func build(c *core.C) *fixture {
 	f.vic, f.r1 = icaworld.Addr("gmp-victim"), icaworld.Addr("gmp-recipient")
 	icaworld.Fund(w, chB, f.vic, funds)
 	icaworld.Fund(w, chB, f.r1, 1)
+	f.srcKeyed = sdk.AccAddress(refAddress(Triple{f.link.ClientA, f.senders[0].String(), []byte("s1")}))
+	icaworld.Fund(w, chB, f.srcKeyed, funds)
 	f.all = icaworld.AllStoreNames(w, chB)
 	w.Sync(chB, f.link.ClientB, chA)
+	w.Sync(chB, f.link2.ClientB, chC)
 	w.Sync(chA, f.link.ClientA, chB)
+	w.Sync(chC, f.link2.ClientA, chB)
 	w.Flatten()
 	return f
 }
@@ -306,29 +329,34 @@ func build(c *core.C) *fixture {
 type kind int
 
 const (
-	kSendMe    kind = iota // bank.MsgSend 40 from the packet's GMP account
-	kSendVic               // bank.MsgSend 40 from the victim (a plain funded account)
-	kSendOther             // bank.MsgSend 40 from the GMP account of ANOTHER triple
-	kMultiMV               // bank.MsgMultiSend with two inputs (= two signers): this account, victim
-	kMultiVM               // bank.MsgMultiSend with two inputs (= two signers): victim, this account
-	kFail                  // bank.MsgSend 1000 from this account (over its balance)
+	kSendMe       kind = iota // bank.MsgSend 40 from the packet's GMP account
+	kSendVic                  // bank.MsgSend 40 from the victim (a plain funded account)
+	kSendOther                // bank.MsgSend 40 from the GMP account of ANOTHER triple
+	kMultiMV                  // bank.MsgMultiSend with two inputs (= two signers): this account, victim
+	kMultiVM                  // bank.MsgMultiSend with two inputs (= two signers): victim, this account
+	kFail                     // bank.MsgSend 1000 from this account (over its balance)
+	kSendSrcKeyed             // bank.MsgSend 40 from the account derived from the packet's SOURCE client id (same sender, salt)
 	nKinds
 )
 
-var kindNames = []string{"send(me)", "send(victim)", "send(other-gmp-account)", "multisend(me+victim)", "multisend(victim+me)", "send(me,over-balance)"}
+var kindNames = []string{"send(me)", "send(victim)", "send(other-gmp-account)", "multisend(me+victim)", "multisend(victim+me)", "send(me,over-balance)", "send(account-of-source-client-id)"}
 
 func (k kind) String() string { return kindNames[k] }
 
 // ledger accounts: the three GMP accounts, the victim, the recipient
 const (
-	aVictim = 3
-	aR1     = 4
-	nAccts  = 5
+	nGMP      = 4
+	aVictim   = 4
+	aR1       = 5
+	aSrcKeyed = 6 // (A's and C's common id for their client of B, sender0, s1): what a receiver keyed by the source client would use
+	nAccts    = 7
 )
 
-var acctNames = []string{"gmp-account(sender0,s1)", "gmp-account(sender0,s2)", "gmp-account(sender1,s1)", "victim", "recipient"}
+var acctNames = []string{"gmp-account(client-of-A,sender0,s1)", "gmp-account(client-of-A,sender0,s2)", "gmp-account(client-of-A,sender1,s1)", "gmp-account(client-of-C,sender0,s1)", "victim", "recipient", "gmp-account(source-client-id,sender0,s1)"}
 
-func other(me int) int { return (me + 1) % 3 }
+// other is the GMP account of ANOTHER triple used by kSendOther: for the twin triples 0 and 3 (same sender and salt,
+// different destination client) it is the twin.
+func other(me int) int { return [nGMP]int{3, 2, 0, 0}[me] }
 
 func (f *fixture) addrOf(a int) sdk.AccAddress {
 	switch a {
@@ -336,6 +364,8 @@ func (f *fixture) addrOf(a int) sdk.AccAddress {
 		return f.vic
 	case aR1:
 		return f.r1
+	case aSrcKeyed:
+		return f.srcKeyed
 	}
 	return f.addrs[a]
 }
@@ -358,6 +388,8 @@ func (f *fixture) msg(k kind, me int) proto.Message {
 			Outputs: []banktypes.Output{{Address: r1S, Coins: coin(2 * multi)}}}
 	case kFail:
 		return &banktypes.MsgSend{FromAddress: meS, ToAddress: r1S, Amount: coin(failAmt)}
+	case kSendSrcKeyed:
+		return &banktypes.MsgSend{FromAddress: f.srcKeyed.String(), ToAddress: r1S, Amount: coin(sendAmt)}
 	}
 	panic("unknown kind")
 }
@@ -371,6 +403,8 @@ func signersOf(k kind, me int) []int {
 		return []int{aVictim}
 	case kSendOther:
 		return []int{other(me)}
+	case kSendSrcKeyed:
+		return []int{aSrcKeyed}
 	case kMultiMV:
 		return []int{me, aVictim}
 	case kMultiVM:
@@ -511,12 +545,18 @@ func (f *fixture) balances(w *ksim.World) [nAccts]int64 {
 	return b
 }
 
-// storedAccounts reads the keeper's Accounts map: gokey of the triple -> address.
-func storedAccounts(w *ksim.World) map[string]string {
-	out := map[string]string{}
+type entry struct {
+	T    Triple
+	Addr string
+	ID   *gmptypes.AccountIdentifier
+}
+
+// storedEntries reads the keeper's Accounts map in key order.
+func storedEntries(w *ksim.World) []entry {
+	var out []entry
 	gk := w.W.Chains[chB].App.GMPKeeper
 	err := gk.Accounts.Walk(w.CS[chB].Ctx, nil, func(k collections.Triple[string, string, []byte], v gmptypes.ICS27Account) (bool, error) {
-		out[Triple{k.K1(), k.K2(), k.K3()}.gokey()] = v.Address
+		out = append(out, entry{Triple{k.K1(), k.K2(), k.K3()}, v.Address, v.AccountId})
 		return false, nil
 	})
 	if err != nil {
@@ -525,25 +565,34 @@ func storedAccounts(w *ksim.World) map[string]string {
 	return out
 }
 
+// storedAccounts: gokey of the triple -> address.
+func storedAccounts(w *ksim.World) map[string]string {
+	out := map[string]string{}
+	for _, e := range storedEntries(w) {
+		out[e.T.gokey()] = e.Addr
+	}
+	return out
+}
+
 var errAckCommit = string(channeltypesv2.CommitAcknowledgement(channeltypesv2.Acknowledgement{AppAcknowledgements: [][]byte{channeltypesv2.ErrorAcknowledgement[:]}}))
 
 // relay sends payload pl as a v2 packet from A (signed by signer) and relays it to B. It returns the packet,
 // the receive result and the store dumps of B around the receive.
-func (f *fixture) relay(c *core.C, w *ksim.World, signer string, pl channeltypesv2.Payload, what string) (pkt channeltypesv2.Packet, rr ksim.Result, pre, post map[string]string, ok bool) {
-	tsec := uint64(w.CS[chA].TimeNs()/1e9) + 3600
-	seq, r := w.SendV2(chA, f.link.ClientA, tsec, signer, pl)
+func (f *fixture) relay(c *core.C, w *ksim.World, src int, l *ksim.Link, signer string, pl channeltypesv2.Payload, what string) (pkt channeltypesv2.Packet, rr ksim.Result, pre, post map[string]string, ok bool) {
+	tsec := uint64(w.CS[src].TimeNs()/1e9) + 3600
+	seq, r := w.SendV2(src, l.ClientA, tsec, signer, pl)
 	if r.Class != ksim.OK {
 		c.Broken("MsgSendPacket by the packet sender failed for %s: %s %v", what, r, r.Err)
 		return pkt, rr, nil, nil, false
 	}
-	pkt = channeltypesv2.NewPacket(seq, f.link.ClientA, f.link.ClientB, tsec, pl)
-	return f.deliver(c, w, pkt, what)
+	pkt = channeltypesv2.NewPacket(seq, l.ClientA, l.ClientB, tsec, pl)
+	return f.deliver(c, w, src, l, pkt, what)
 }
 
-func (f *fixture) deliver(c *core.C, w *ksim.World, pkt channeltypesv2.Packet, what string) (channeltypesv2.Packet, ksim.Result, map[string]string, map[string]string, bool) {
-	w.Sync(chB, f.link.ClientB, chA)
+func (f *fixture) deliver(c *core.C, w *ksim.World, src int, l *ksim.Link, pkt channeltypesv2.Packet, what string) (channeltypesv2.Packet, ksim.Result, map[string]string, map[string]string, bool) {
+	w.Sync(chB, l.ClientB, src)
 	pre := w.DumpStores(chB, f.all)
-	rr := w.RecvV2(chB, chA, pkt, w.ClientLatest(chB, f.link.ClientB))
+	rr := w.RecvV2(chB, src, pkt, w.ClientLatest(chB, l.ClientB))
 	if rr.Class != ksim.OK {
 		c.Broken("MsgRecvPacket of a committed GMP packet failed for %s: %s %v", what, rr, rr.Err)
 		return pkt, rr, nil, nil, false
@@ -596,7 +645,7 @@ func (f *fixture) eval(c *core.C, w *ksim.World, cs Case, keyPrefix string) (ver
 	start := f.balances(w)
 	ref := judge(cs.Kinds, me, start)
 	accBefore := storedAccounts(w)
-	pkt, rr, pre, post, ok := f.relay(c, w, t.Sender, pl, cs.String())
+	pkt, rr, pre, post, ok := f.relay(c, w, f.src[me], f.links[me], t.Sender, pl, cs.String())
 	if !ok {
 		return ref, nil
 	}
@@ -642,6 +691,24 @@ func (f *fixture) eval(c *core.C, w *ksim.World, cs Case, keyPrefix string) (ver
 	for i, tr := range f.triples {
 		if a, ok := accAfter[tr.gokey()]; ok && a != f.addrs[i].String() {
 			viol("account-not-derived-address", fmt.Sprintf("stored account of %s is %s, derived before first use: %s", tr, a, f.addrs[i]))
+		}
+	}
+	// every stored account is keyed by a DESTINATION client of this chain (one over which GMP packets arrive), its
+	// address is the one derived from that key, its recorded identifier is the key, and a packet registers no
+	// account other than the one of its own (destination client, sender, salt)
+	for _, e := range storedEntries(w) {
+		k := e.T.gokey()
+		if e.T.Client != f.link.ClientB && e.T.Client != f.link2.ClientB {
+			viol("account-keyed-by-foreign-client", fmt.Sprintf("the Accounts map holds an entry for %s whose client is not a destination client of this chain's GMP links (%s, %s)", e.T, f.link.ClientB, f.link2.ClientB))
+		}
+		if want := sdk.AccAddress(refAddress(e.T)).String(); e.Addr != want {
+			viol("stored-address-not-derived-from-key", fmt.Sprintf("the Accounts map holds %s for %s, the derivation from that key gives %s", e.Addr, e.T, want))
+		}
+		if e.ID == nil || e.ID.ClientId != e.T.Client || e.ID.Sender != e.T.Sender || !bytes.Equal(e.ID.Salt, e.T.Salt) {
+			viol("stored-identifier-differs-from-key", fmt.Sprintf("the account stored under %s records the identifier %v", e.T, e.ID))
+		}
+		if _, before := accBefore[k]; !before && k != t.gokey() {
+			viol("foreign-account-registered", fmt.Sprintf("the packet of %s registered an account for %s", t, e.T))
 		}
 	}
 	if !ref.Executed {
@@ -739,52 +806,62 @@ type kStats struct {
 func (f *fixture) runLists(c *core.C, st *kStats) {
 	maxLen := core.Pick(c, []int{3, 2, 2, 1}, []int{4, 3, 3, 2}) // per encoding
 	c.Set("k_max_messages_per_packet", map[string]any{"encodings": []string{"protobuf", "json", "abi", "protobuf+protojson-tx"}, "max": maxLen})
+	c.Set("k_list_packets_from", "triple 0 (over B's client of A): all encodings; triple 3 (over B's client of C, twin sender/salt): protobuf, one message fewer")
 	sampled := map[string]bool{}
-	for ei := range encodings {
-		for n := 0; n <= maxLen[ei] && st.done; n++ {
-			dims := make([]int, n)
-			for i := range dims {
-				dims[i] = int(nKinds)
+	for _, me := range []int{0, 3} {
+		for ei := range encodings {
+			top := maxLen[ei]
+			if me == 3 {
+				if ei != 0 {
+					continue
+				}
+				top--
 			}
-			one := func(idx []int) bool {
-				if c.TimeUp() || c.Violations() > 5 {
-					st.done = false
-					return false
+			for n := 0; n <= top && st.done; n++ {
+				dims := make([]int, n)
+				for i := range dims {
+					dims[i] = int(nKinds)
 				}
-				cs := Case{Me: 0, Enc: ei, Kinds: []kind{}}
-				for _, k := range idx {
-					cs.Kinds = append(cs.Kinds, kind(k))
-				}
-				var ref verdict
-				var out *outcome
-				if p := core.Catch(func() { ref, out = f.eval(c, f.w.Fork(), cs, "") }); p != "" {
-					c.Broken("panic while evaluating %s: %s", cs, p)
-					st.done = false
-					return false
-				}
-				st.evals++
-				class := "executed"
-				if ref.Executed {
-					st.executed++
-				} else {
-					class = fmt.Sprintf("%s@%d", ref.Reason, ref.At)
-					st.sigs[fmt.Sprintf("%s/len%d/%s", class, n, encodings[ei].Name)] = true
-				}
-				c.Hist("k_reference_verdicts", class)
-				if out != nil {
-					c.Hist("k_acks", out.Ack)
-					if !sampled[class] && len(sampled) < 6 {
-						sampled[class] = true
-						c.Sample(out)
+				one := func(idx []int) bool {
+					if c.TimeUp() || c.Violations() > 5 {
+						st.done = false
+						return false
 					}
+					cs := Case{Me: me, Enc: ei, Kinds: []kind{}}
+					for _, k := range idx {
+						cs.Kinds = append(cs.Kinds, kind(k))
+					}
+					var ref verdict
+					var out *outcome
+					if p := core.Catch(func() { ref, out = f.eval(c, f.w.Fork(), cs, "") }); p != "" {
+						c.Broken("panic while evaluating %s: %s", cs, p)
+						st.done = false
+						return false
+					}
+					st.evals++
+					class := "executed"
+					if ref.Executed {
+						st.executed++
+					} else {
+						class = fmt.Sprintf("%s@%d", ref.Reason, ref.At)
+						st.sigs[fmt.Sprintf("%s/len%d/%s/t%d", class, n, encodings[ei].Name, me)] = true
+					}
+					c.Hist("k_reference_verdicts", class)
+					if out != nil {
+						c.Hist("k_acks", out.Ack)
+						if !sampled[class] && len(sampled) < 6 {
+							sampled[class] = true
+							c.Sample(out)
+						}
+					}
+					return true
 				}
-				return true
+				if n == 0 {
+					one(nil)
+					continue
+				}
+				core.Product(dims, one)
 			}
-			if n == 0 {
-				one(nil)
-				continue
-			}
-			core.Product(dims, one)
 		}
 	}
 }
@@ -794,8 +871,8 @@ func (f *fixture) runLists(c *core.C, st *kStats) {
 var histLists = [][]kind{{kSendMe}, {kSendVic}, {kFail}, {kSendMe, kSendMe}}
 
 func (f *fixture) runHistories(c *core.C, st *kStats) {
-	depth := core.Pick(c, 2, 4)
-	nOps := 3 * len(histLists)
+	depth := core.Pick(c, 2, 3)
+	nOps := nGMP * len(histLists)
 	c.Set("k_history_depth", depth)
 	c.Set("k_history_ops", nOps)
 	dims := make([]int, depth)
@@ -911,7 +988,7 @@ func (f *fixture) runForeign(c *core.C, st *kStats) {
 				return nil
 			}))
 			balBefore := icaworld.Balance(w, chB, addr)
-			_, _, pre, post, ok := f.deliver(c, w, pkt, t.String())
+			_, _, pre, post, ok := f.deliver(c, w, chA, f.link, pkt, t.String())
 			if !ok {
 				return
 			}
@@ -1113,12 +1190,12 @@ func run(c *core.C) {
 	c.Assume("counterparty consensus, storage commit and validator signing are played by the harness (real IAVL proofs, real signed headers verified by the unmodified 07-tendermint client); one message per transaction, no ante handlers, so the transaction signer of a message is what its cosmos.msg.v1.signer annotation declares")
 	c.Assume("the reference ledger models bank.MsgSend / MsgMultiSend as balance moves in one denomination; the expected address formula is the one documented on BuildAddressPredictable (ADR-028 module address over 8-byte-length-prefixed client|sender|salt)")
 	c.Assume("foreign-counterparty packets: the packet commitment is written directly into the source chain's provable store (a counterparty that is not ibc-go and whose sender strings are arbitrary); everything on the destination is the real handler path")
-	c.Set("rule", "S: a triple is non-trivial when the derivation accepts it and its plain concatenation client|sender|salt coincides with that of another accepted triple (only the length prefixes tell them apart); K: a packet is non-trivial when the reference lets it execute or when it is rejected with a (reason, offending position, list length, encoding) signature not seen before; a history is non-trivial when at least two of its packets execute; a foreign-sender triple when its packet executes; plus the accepted / refused classes of outgoing sends and foreign-sender packets")
+	c.Set("rule", "S: a triple is non-trivial when the derivation accepts it and its plain concatenation client|sender|salt coincides with that of another accepted triple (only the length prefixes tell them apart); K: a packet is non-trivial when the reference lets it execute or when it is rejected with a (reason, offending position, list length, encoding, triple) signature not seen before; a history is non-trivial when at least two of its packets execute; a foreign-sender triple when its packet executes; plus the accepted / refused classes of outgoing sends and foreign-sender packets")
 	c.Set("k_alphabet", kindNames)
 
 	if c.Replay != "" {
 		var cs Case
-		if err := c.LoadReplay(&cs); err != nil || cs.Me < 0 || cs.Me > 2 || cs.Enc < 0 || cs.Enc >= len(encodings) {
+		if err := c.LoadReplay(&cs); err != nil || cs.Me < 0 || cs.Me >= nGMP || cs.Enc < 0 || cs.Enc >= len(encodings) {
 			c.Broken("cannot load replay (only single-packet cases can be replayed): %v", err)
 			return
 		}
